@@ -4,12 +4,16 @@
    transcription of writer.go): fresh, NewSerializeBufferExpectedSize(p, a) for p, a in {0,1,64,4096}, and all
    of these followed by up to MaxFill operations that write 0xAA / 0xFF (PrependBytes / AppendBytes of 1, 64,
    4096 bytes, SerializeLayers of three other stacks - the same stack several times = "reused k times") and a
-   Clear.  For every history the model predicts how many stale bytes the next user of the buffer will be handed.
+   Clear.  The other stacks carry real layer types, including stand-alone IPv6 hop-by-hop / destination / fragment
+   headers, and the model tracks the recorded layer list (Layers()) a history leaves behind (empty after Clear).
+   For every history the model predicts how many stale bytes the next user of the buffer will be handed.
 2. The Go driver (harness/cmd/codec -mode c07) replays every history on the real buffer and records what it
    really exposes (event hist), then takes serializable layers obtained by decoding fixtures and mutations
    (chosen uniformly over ~76 layer types), and for each of the 4 FixLengths/ComputeChecksums combinations
    serializes the layer - decoded afresh for every call - over its payload into the fresh buffer and into
-   dirty histories, twice in a row each, under recover.
+   dirty histories, twice in a row each, under recover.  Beyond the model's bound: buffers that earlier held REAL
+   stacks (built Ethernet/IPv6/stand-alone extension header/..., decoded corpus packets through SerializePacket);
+   IPv6 layers that carry their own hop-by-hop header (decoded and built, incl. jumbograms) always meet those.
 3. TLC validates the trace against SerPure.tla: memo keyed (case, input digest, options); the first outcome is
    the reference; a later differing outcome, a panic or a hang is rejected.  Verdicts come only from step 3.
 """
@@ -137,7 +141,7 @@ def run(ctx):
         cmd = [binp, "-mode", "c07", "-n", str(per), "-seed", str(ctx.seed * 1000 + k), "-hist", hp,
                "-khist", str(khist), "-trace", tp] + (["-probe"] if k == 0 else []) + extra
         procs.append((k, tp, subprocess.Popen(cmd, env=vlib.goenv(), stdout=subprocess.PIPE, stderr=subprocess.PIPE, text=True)))
-    stats = {"cases": 0, "calls": 0, "events": 0}
+    stats = {"cases": 0, "calls": 0, "events": 0, "focus_cases": 0}
     for k, tp, p in procs:
         out, err = p.communicate(timeout=3000)
         if p.returncode not in (0, 3):
@@ -147,6 +151,7 @@ def run(ctx):
         for key in stats:
             stats[key] += st.get(key, 0)
         stats["types_indexed"] = st.get("types_indexed", stats.get("types_indexed", 0))
+        stats["real_histories"] = st.get("real_histories", 0)
     log("[C07] %d layer values, %d SerializeTo calls recorded in %.1fs" % (stats["cases"], stats["calls"], time.time() - t0))
 
     # 3. TLC judges every call
@@ -199,7 +204,8 @@ def run(ctx):
            "rule": "evaluation = one SerializeTo call judged by TLC; non-trivial = a distinct layer value (input, first type, layer "
                    "index) written under 4 option sets into the fresh buffer and %d dirty histories, twice each" % khist,
            "layer_types": len(types), "layer_values_per_type": types, "layer_types_indexed": stats.get("types_indexed", 0),
-           "histories_enumerated_by_tlc": len(hs), "history_model_states": hr.distinct, "history_fill_depth": depth,
+           "histories_enumerated_by_tlc": len(hs), "real_stack_histories_beyond_the_model": stats.get("real_histories", 0),
+           "ipv6_with_own_hop_by_hop_subjects_into_buffers_that_recorded_a_hop_by_hop_layer": stats["focus_cases"], "history_model_states": hr.distinct, "history_fill_depth": depth,
            "histories_used": len(hused), "histories_as_modelled_on_real_buffer": hist["agree"],
            "histories_really_dirty": hist["dirty"], "outcomes": outcomes,
            "states": hr.distinct + tstates, "transitions": lines, "traces_validated_against_impl": len(results),
